@@ -143,8 +143,9 @@ def val(d):
 class VBase:
     """time-stepped harness component; publishes its own time (hours) on every output"""
 
-    def __init__(self, name, menu, fixed=None, ins=(), outs=(), start=0, pull_initial=True, finish_at=None):
+    def __init__(self, name, menu, fixed=None, ins=(), outs=(), start=0, pull_initial=True, finish_at=None, late_time=False):
         super().__init__()
+        self.late_time = late_time  # the component learns its time only while connecting (time is None before)
         self.finish_at = finish_at  # the component declares itself FINISHED once it reached this time (hours)
         self.declared_finished = False
         self._name = name
@@ -152,7 +153,7 @@ class VBase:
         self.fixed = list(fixed) if fixed else None
         self.ins, self.outs = list(ins), list(outs)
         self.start = start
-        self._time = T0 + H(start)
+        self._time = None if late_time else T0 + H(start)
         self.pending = None
         self.nupd = 0
         self.pull_initial = pull_initial
@@ -182,6 +183,8 @@ class VBase:
 
     def _connect(self, st):
         self._life("connect")
+        if self._time is None:
+            self._time = T0 + H(self.start)
         pulled = [n for n in (self.ins if self.pull_initial else []) if self.connector.in_data.get(n) is None]
         self.try_connect(st, push_data={n: self.value() for n in self.outs})
         for n in pulled:
@@ -381,7 +384,7 @@ class Run:
         self.comps = {}
         for c in cfg["comps"]:
             if c["kind"] == "T":
-                self.comps[c["name"]] = (IVComp if c.get("own_clock") else VComp)(c["name"], c.get("menu", [1]), c.get("fixed"), c.get("ins", ()), c.get("outs", ()), c.get("start", 0), c.get("pull_initial", True), c.get("finish_at"))
+                self.comps[c["name"]] = (IVComp if c.get("own_clock") else VComp)(c["name"], c.get("menu", [1]), c.get("fixed"), c.get("ins", ()), c.get("outs", ()), c.get("start", 0), c.get("pull_initial", True), c.get("finish_at"), c.get("late_time", False))
             else:
                 self.comps[c["name"]] = PComp(c["name"], c.get("ins", ()), c.get("outs", ()), slot_time=self.t_start)
         self.links = [Shared(l) for l in cfg["links"]]
@@ -746,7 +749,7 @@ def signature(cfg):
         o = ("exc", out[1])
     else:
         o = (out[0],)
-    times = {n: float(hrs(c._time)) for n, c in r.comps.items() if isinstance(c, VBase)}
+    times = {n: None if c._time is None else float(hrs(c._time)) for n, c in r.comps.items() if isinstance(c, VBase)}
     sig = dict(outcome=o, infos=infos, times=times if o == ("done",) else None, series={k: v for k, v in sorted(r.series.items())} if o == ("done",) else None)
     return sig, r
 
